@@ -255,7 +255,7 @@ func (df *DataFrame) Head(n int) *DataFrame {
 	for name, col := range df.Columns {
 		newCol := &Column[any]{
 			Name: name,
-			Data: col.Data[:n],
+			Data: append([]any{}, col.Data[:n]...), // copy: the result must not alias the source
 		}
 		head.Columns[name] = newCol
 	}
@@ -282,7 +282,7 @@ func (df *DataFrame) Tail(n int) *DataFrame {
 	for name, col := range df.Columns {
 		newCol := &Column[any]{
 			Name: name,
-			Data: col.Data[totalRows-n:],
+			Data: append([]any{}, col.Data[totalRows-n:]...), // copy: the result must not alias the source
 		}
 		tail.Columns[name] = newCol
 	}
